@@ -842,6 +842,8 @@ FAMS = {
            "WU: three relations, each [user] | [doc#y, user:*] | [employee:*, doc#y], optionally `or y` / `or z` (tuple cycles through several union nodes with public types found above them; 729 models)"),
     "S1": ({"R": 2, "SINGLE0": 1, "DUPTHIS0": 1, "L10": M(0, 1, 4, 16, 19), "L20": M(16, 19), "L11": M(0, 4, 16)},
            "S1: a = leaf | leaf op second | union(leaf) | intersection(leaf) | union(union(leaf)) | union(leaf) op second (operators with ONE operand) | this op this (the direct assignment twice) - JSON-only shapes, b = [user] | [doc#a] | a"),
+    "E0": ({"R": 2, "L10": M(0, 23), "L20": M(16), "REV0": 1, "L11": M(0, 1)},
+           "E0: a = [user] | [] | ([user] | []) op b | b op ([user] | []) with [] a direct assignment without type restrictions (JSON only), b = [user] | [user, employee]"),
     "L": ({"R": 3, "L10": M(0, 4, 5, 9, 10, 16), "L11": M(0, 4, 5, 9, 10, 16, 17), "L12": M(0, 4, 5, 9, 10, 16, 17), "L22": M(16, 17), "OP2": 3},
           "L: three relations with multi-userset restrictions (interlocking tuple cycles)"),
 }
@@ -888,11 +890,11 @@ THOROUGH_GRAPH = [("J4", *RR), ("J5", *RR), ("J6", *RR), ("Q", *RR), ("N", *RA),
 
 
 def c04(tier):
-    graph_check("C04", 4, tier, [("B", *FI), ("J", *FI), ("J4", *FI), ("K", *FI), ("Q", *FI), ("Q2", *FI), ("N", *RA), ("H", *RR), ("L", *RR), ("LP", *RR), ("C", *RA), ("S1", *FI)], THOROUGH_GRAPH, extra_jobs=kernels())
+    graph_check("C04", 4, tier, [("B", *FI), ("J", *FI), ("J4", *FI), ("K", *FI), ("Q", *FI), ("Q2", *FI), ("N", *RA), ("H", *RR), ("L", *RR), ("LP", *RR), ("C", *RA), ("S1", *FI), ("E0", *FI)], THOROUGH_GRAPH, extra_jobs=kernels())
 
 
 def c05(tier):
-    graph_check("C05", 5, tier, [("A", *AL), ("B", *FI), ("J", *FI), ("J4", *FI), ("J5", *FI), ("J6", *FI), ("Q", *FI), ("G", *RR), ("L", *RR), ("H", *RR), ("S1", *RR), ("LP", *RR)], THOROUGH_GRAPH, reach=["return"])
+    graph_check("C05", 5, tier, [("A", *AL), ("B", *FI), ("J", *FI), ("J4", *FI), ("J5", *FI), ("J6", *FI), ("Q", *FI), ("G", *RR), ("L", *RR), ("H", *RR), ("S1", *RR), ("LP", *RR), ("E0", *RR)], THOROUGH_GRAPH, reach=["return"])
 
 
 def c06(tier):
